@@ -24,6 +24,7 @@ def run(ctx, crate):
     rule_wide_msg(ctx, crate)
     rule_width_always_applied(ctx, crate)
     rule_width_parsed_exact(ctx, crate)
+    rule_trunc_keeps_width(ctx, crate)
 
 
 def rule_units(ctx, crate, rule="R-UNITS"):
@@ -385,3 +386,49 @@ def rule_width_parsed_exact(ctx, crate, rule="R-WIDTH-PARSED-EXACT"):
             ctx.check(parsed and not other, rule, "payload-is-parse#%d" % (n - 1), b.name, loc, "the stored width is the number parsed from the digits, unmodified",
                       "the stored width is not the plain parse of the digits (%s)" % other[:2], cfg)
     ctx.floor(rule, n, 1, cfg, "stores to a placeholder's width in the parser")
+
+
+def rule_trunc_keeps_width(ctx, crate, rule="R-TRUNC-CONSERVES"):
+    """"exactly W columns are kept from the start, the end or the middle": in the truncating branch the slice bounds satisfy
+    the conservation law  start + (len - end) = excess  for every alignment (affine value analysis: each bound is
+    evaluated to a linear form over {len, columns, width, excess/2}; saturating ops count as plain +/-). Likewise the
+    padding:  left + right = width - columns.  (The *unit* of the bounds — columns used as byte offsets — is the known
+    finding of R-UNITS and is not judged here.)"""
+    from .. import affine as A
+    cfg = crate.config
+    b = K.find_one(ctx, crate, rule, r"<style::PaddedStringDisplay<'_> as std::fmt::Display>::fmt")
+    if not b:
+        return
+    meas = b.calls(r"console::measure_text_width")
+    if not meas:
+        ctx.lost(rule, cfg, "PaddedStringDisplay::fmt no longer measures its text")
+        return
+    cols = A.linform(b, {"k": "copy", "place": {"l": meas[0].dest["l"], "p": []}}, meas[0].target if meas[0].target is not None else meas[0].bb)
+    width = {("place", "param1", ("width",)): 1}
+    excess = A.add(cols, width, -1)
+    diff = A.add(width, cols, -1)
+    n = 0
+    # tuples (a, b) built per alignment arm
+    for vs, reg, sb, pl in K.variant_regions(b, crate, "style::Alignment"):
+        if len(vs) != 1:
+            continue
+        v = next(iter(vs))
+        tups = [(i, s) for i, j, s in b.assigns() if i in reg and s["rv"]["k"] == "agg" and s["rv"].get("ak") == "tuple" and len(s["rv"]["ops"]) == 2]
+        if not tups:
+            continue
+        i, s = tups[-1]
+        fa, fb = A.linform(b, s["rv"]["ops"][0], i), A.linform(b, s["rv"]["ops"][1], i)
+        lens = [k for k in list(fa) + list(fb) if isinstance(k, tuple) and k[0] == "call" and k[1].endswith("::len")]
+        n += 1
+        if lens:
+            # truncation arm: start + len - end - excess == 0
+            res = A.add(A.add(A.add(fa, {lens[0]: 1}), fb, -1), excess, -1)
+            ctx.check(not res, rule, "cut=excess:%s" % v, b.name, "%s:%d" % (b.file, s.get("line", 0)),
+                      "%s truncation removes exactly the excess: start + (len - end) = columns - width" % v,
+                      "%s truncation does not remove exactly the excess columns: start + (len - end) - excess = %s (the field keeps more or fewer than W columns)" % (v, A.show(res)), cfg)
+        else:
+            res = A.add(A.add(fa, fb), diff, -1)
+            ctx.check(not res, rule, "pads=diff:%s" % v, b.name, "%s:%d" % (b.file, s.get("line", 0)),
+                      "%s padding adds exactly the missing columns: left + right = width - columns" % v,
+                      "%s padding does not add up to the missing columns: left + right - (width - columns) = %s" % (v, A.show(res)), cfg)
+    ctx.floor(rule, n, 6, cfg, "alignment arms (3 truncating, 3 padding)")
